@@ -546,7 +546,7 @@ theorem ti_handleTimeout (h : TI s.timer now) : TI (handleTimeout s now).timer n
   all_goals first
     | exact h
     | exact h1
-    | exact ti_handleAckTimer h1 _
+    | (apply ti_handleAckTimer; ti_gor [])
     | ti_gor []
 
 end Cfdp.Recv
